@@ -4,7 +4,7 @@
    serialised and compares payload bytes, sizes and decoded sequences. *)
 From Coq Require Import ZArith List Bool.
 Import ListNotations.
-Require Import SZV.Base.Bytes SZV.Base.BitPack SZV.Model.Huffman SZV.Proofs.Bytes_proofs SZV.Proofs.Huffman_proofs.
+Require Import SZV.Base.Bytes SZV.Base.BitPack SZV.Gen.SrcConsts SZV.Model.Huffman SZV.Proofs.Bytes_proofs SZV.Proofs.Huffman_proofs.
 Local Open Scope Z_scope.
 
 (* bit-serial decoder (decode): payload bytes followed by anything decode to the sequence *)
@@ -50,6 +50,12 @@ Theorem C11_tree_bytes_roundtrip : forall (w:nat) sysEnd rows, (0 < w)%nat ->
   parse_tree_bytes w (length rows) (tree_bytes w sysEnd rows) = rows.
 Proof. exact tree_bytes_roundtrip. Qed.
 Print Assumptions C11_tree_bytes_roundtrip.
+
+(* obligation on the constants regenerated from Huffman.c on every run: every site that chooses the
+   table layout (writer, reader, both decoders) uses the thresholds the theorem above is about *)
+Theorem C11_thresholds_from_source : src_huff_thr8 = [256] /\ src_huff_thr16 = [65536].
+Proof. split; reflexivity. Qed.
+Print Assumptions C11_thresholds_from_source.
 
 (* non-vacuity: a three-leaf tree, a sequence, its payload and both decoders *)
 Example C11_ex :
